@@ -8,8 +8,10 @@ META = {
 
 MANIFEST = {
     'text': 'Solver-decided CRC-32 kernel on the real function, bounded symbolic execution of the real MBR/GPT encoding for all geometries in range, and of '
-            'the real extent assignment on hybrid skeleton histories with symbolic boot-file lengths.',
-    'note': 'Bounded: one CRC step for all states/bytes, whole messages of 1 byte; geometry/size ranges per obligation; skeleton family.',
+            'the real extent assignment on hybrid skeleton histories with symbolic boot-file lengths: recorded MBR entries, GPT partitions, primary/backup '
+            'mirroring (entry-by-entry), header cross-references; Apple partition map entries in a separate obligation (recorded finding).',
+    'note': 'Bounded: one CRC step for all states/bytes, whole messages of 1 byte; geometry/size ranges per obligation; skeleton family. GPT header and '
+            'entry-array CRC VALUES are validated per the UEFI rule with zlib on the declared concrete samples and replays only.',
     'technique': 'bit-vector symbolic execution of real crc32 (z3 + second solver) and CrossHair on IsoHybrid code',
 }
 
